@@ -75,6 +75,11 @@ def run():
             break
     fmt = [b for b, t in we.calls() if callee_of(t) and callee_of(t)['def'].endswith('fmt::format')]
     ok &= need(sw is not None and fmt and not P.only_on_edge(we, sw[0], sw[2], sw[1], fmt[0]), 'polarity test sees a match guard falling through into the shared arm')
+    import c11
+    st = c11.push_advance_sites(f.fn(CR + '::stale_cursor_after_push'))
+    good = c11.push_advance_sites(f.fn(CR + '::cursor_follows_push'))
+    ok &= need(len(st) == 3 and sum(1 for _, _, bad in st if bad) == 1, 'PUSH-ADVANCE (must-derive dataflow) sees the separator attached before the following element is parsed (%d sites, %d offending)' % (len(st), sum(1 for _, _, bad in st if bad)))
+    ok &= need(len(good) == 3 and not any(bad for _, _, bad in good), 'PUSH-ADVANCE is silent when separator and element are attached together')
     return ok, msgs
 
 
